@@ -128,8 +128,9 @@ def _value_of(expr: Expr) -> Number | None:
         # numerical evaluation of a Sum/Product with symbolic limits has to decide a symbolic relation.
         return None
 
-    if not value.is_finite:
-        # NaN or an infinity (e.g. from a formula evaluated at one of its singular points) has no numeric value
+    if not value.is_finite or value.is_real is False:
+        # NaN, an infinity (e.g. from a formula evaluated at one of its singular points) or a complex number
+        # (e.g. a negative base raised to a fractional power) has no real numeric value
         return None
 
     # Map to integer if possible
